@@ -22,6 +22,10 @@ def main():
         out = runner.exec_one(job)
     elif mode == 'shrink':
         out = runner.shrink(job)
+    elif mode == 'world_prefix':
+        out = runner.world_prefix(job)
+    elif mode == 'world_trial':
+        out = runner.world_trial(job)
     elif mode == 'selfcheck':
         from cirbosim import world
         from cirbosim.peers import cuts, sat
